@@ -2478,6 +2478,25 @@ class BaseInterpreter(Generic[TContext, TEvent]):
                 hook(self, error)
         self._notify_subscribers()
 
+    def _fail_if_unhandled(self, event: Any) -> None:
+        """Fails the machine for a service failure nobody handles.
+
+        🏛️ Architecture decision: the engines mark the `error.platform.*`
+        event of a service that failed without any `onError` and call this
+        once that event has been processed, i.e. BETWEEN macrosteps. Calling
+        `_fail()` straight from the failing service (a task of its own in the
+        async engine, the middle of state entry in the sync engine) notified
+        subscribers while a transition was half done, so they observed a
+        configuration that never exists - a compound state without a child,
+        a parallel state missing regions.
+
+        Args:
+            event (Any): The event that has just been processed.
+        """
+        failure = getattr(event, "unhandled_failure", None)
+        if failure is not None:
+            self._fail(failure)
+
     def _complete(self, output: Any) -> None:
         """Marks the machine as finished and records its output.
 
